@@ -135,6 +135,15 @@ def gen_records(args):
             o2 = _call(emd.cycles.is_good, ph, phase_edge=edge)
             if not isinstance(o2, str) and not isinstance(o, str) and bool(o2) != bool(all(o)):
                 recs.append({'kind': 'isgood', 'p': p, 'edge': E, 'out': [-97, -97, -97]})
+            if p[0] == E:
+                # a segment that starts at phase EXACTLY zero (the lower end of the start criterion is inclusive)
+                p0 = [0] + p[1:]
+                ph0 = val[p0]
+                o = _call(emd.cycles.is_good, ph0, ret_all_checks=True, phase_edge=edge)
+                recs.append({'kind': 'isgood', 'p': p0, 'edge': E, 'out': [-99, -99, -99] if isinstance(o, str) else [int(x) for x in o[:3]]})
+                S0 = STEPS[E][1]
+                out, err = _vec(_call(gcv, ph0, return_good=True, phase_step=(S0 + 0.5) * U, phase_edge=edge))
+                recs.append({'kind': 'cv', 'p': p0, 'step': S0, 'edge': E, 'good': 1, 'hasmask': 0, 'mask': [], 'out': out, 'layout': 'starts-at-zero'})
     return recs
 
 
